@@ -110,7 +110,7 @@ func (e *Env) define(hint string, t Term) Term {
 func (e *Env) parseType(s string) SType {
 	s = strings.TrimSpace(s)
 	switch s {
-	case "int", "rounder", "form", "error", "string":
+	case "int", "rounder", "form", "error", "string", "fmtstate":
 		return SType{K: KInt}
 	case "bool":
 		return SType{K: KBool}
@@ -532,6 +532,37 @@ func (e *Env) call(x *ECall) SVal {
 			e.g.decls = append(e.g.decls, "(declare-fun be_val ((Array Int Int) Int Int) Int)")
 		}
 		return iv(app(SInt, "be_val", e.g.arr(e.cur, cellKey(v.Ty.Elem), SInt), v.T, v.Len))
+	case "wlog":
+		// wlog(s): everything written so far to the fmt.State s, as a byte slice (ghost)
+		need(1)
+		v := e.eval(args[0])
+		lp, ln := e.g.stateLog(e.cur, v.T)
+		return SVal{T: lp, Ty: SType{K: KSlice, Elem: types.Universe.Lookup("byte").Type()}, Len: ln}
+	case "wlogok":
+		// the log of s lies in allocated memory (below the allocation counter of the current state)
+		need(1)
+		v := e.eval(args[0])
+		lp, ln := e.g.stateLog(e.cur, v.T)
+		return bv(And(Lt(IntLit(0), lp), Le(IntLit(0), ln), Le(Add(lp, ln), e.cur.cnt)))
+	case "stflag":
+		need(2)
+		if !e.g.declared["uf_stflag"] {
+			e.g.declared["uf_stflag"] = true
+			e.g.decls = append(e.g.decls, "(declare-fun uf_stflag (Int Int) Bool)")
+		}
+		return bv(app(SBool, "uf_stflag", e.eval(args[0]).T, e.integer(args[1])))
+	case "stwidth", "sthaswidth":
+		need(1)
+		for _, d := range [][2]string{{"uf_stwidth", "(Int) Int"}, {"uf_stwidth_ok", "(Int) Bool"}} {
+			if !e.g.declared[d[0]] {
+				e.g.declared[d[0]] = true
+				e.g.decls = append(e.g.decls, "(declare-fun "+d[0]+" "+d[1]+")")
+			}
+		}
+		if x.Fn == "stwidth" {
+			return iv(app(SInt, "uf_stwidth", e.eval(args[0]).T))
+		}
+		return bv(app(SBool, "uf_stwidth_ok", e.eval(args[0]).T))
 	case "now":
 		// now(p): the current value of a parameter that the code reassigns (in ghost assertions at call sites and in loop
 		// clauses; the plain name is the value at entry)
@@ -621,10 +652,7 @@ func (e *Env) call(x *ECall) SVal {
 			case "dseg":
 				v, j := e.integer(args[2]), e.integer(args[3])
 				n = e.integer(args[4])
-				if !e.g.declared["uf_dchar_2"] {
-					e.g.declared["uf_dchar_2"] = true
-					e.g.decls = append(e.g.decls, "(declare-fun uf_dchar_2 (Int Int) Int)")
-				}
+				e.g.dcharAxiom()
 				rhs = func(t Term) Term { return app(SInt, "uf_dchar_2", v, Add(j, Sub(t, i))) }
 			default:
 				n = e.integer(args[2])
@@ -659,10 +687,7 @@ func (e *Env) call(x *ECall) SVal {
 		} else if x.Fn == "dseg" {
 			v, j := e.integer(args[2]), e.integer(args[3])
 			n = e.integer(args[4])
-			if !e.g.declared["uf_dchar_2"] {
-				e.g.declared["uf_dchar_2"] = true
-				e.g.decls = append(e.g.decls, "(declare-fun uf_dchar_2 (Int Int) Int)")
-			}
+			e.g.dcharAxiom()
 			rhs = app(SInt, "uf_dchar_2", v, Add(j, Sub(q, lo)))
 		} else {
 			n = e.integer(args[2])
@@ -805,6 +830,8 @@ func (e *Env) call(x *ECall) SVal {
 		switch x.Fn {
 		case "uf_isnum", "uf_numval", "uf_utext", "uf_stext":
 			e.g.numeralTheory()
+		case "uf_dchar":
+			e.g.dcharAxiom()
 		case "uf_hasprefix":
 			// for a literal prefix the uninterpreted function has its meaning: length and bytes
 			lit, ok := &EStr{}, false
